@@ -352,9 +352,11 @@ class Client:
                             if returned:
                                 break
                     else:
-                        try:
-                            reader.read(*req)
+                        try:        # eager and lazy entry points alternate with the call index (no draw)
+                            (reader.dask_read if ci % 2 else reader.read)(*req)
                             returned = True
+                            if ci % 2:
+                                req = f"dask_read{req}"
                         except (ValueError, EOFError):
                             pass
                     if returned:
